@@ -69,18 +69,26 @@ Definition serve_conn (p : proto) (m : mode) (q : list revt) (wq : list wev) (fq
   process (process_fuel q) p m rstate0 (mkW [] wq fq []) q svc.
 
 (* ---- accept loop (serve / serve_until), decision logic only ---- *)
-Inductive setup := SetupService | SetupReject | SetupErr (k : kind).
+(* a connection handed to a task is described by the read script its transport will deliver *)
+Inductive setup := SetupService (script : list revt) | SetupReject | SetupErr (k : kind).
 Inductive accept_ev := AConn (s : setup) | AAcceptErr (k : kind) | AAbort.
 Inductive serve_result := SrvErr (k : kind) | SrvAborted | SrvListening.
 
-(* returns the indices (into the event list) of the connections handed to a task,
-   and how serving ended *)
-Fixpoint serve (evs : list accept_ev) (idx : N) : list N * serve_result :=
+(* returns the scripts of the connections handed to a task (in accept order) and how serving ended *)
+Fixpoint serve (evs : list accept_ev) : list (list revt) * serve_result :=
   match evs with
   | [] => ([], SrvListening)
-  | AConn SetupService :: evs' => let '(l, r) := serve evs' (idx + 1) in (idx :: l, r)
-  | AConn SetupReject :: evs' => serve evs' (idx + 1)
+  | AConn (SetupService q) :: evs' => let '(l, r) := serve evs' in (q :: l, r)
+  | AConn SetupReject :: evs' => serve evs'
   | AConn (SetupErr k) :: _ => ([], SrvErr k)
   | AAcceptErr k :: _ => ([], SrvErr k)
   | AAbort :: _ => ([], SrvAborted)
   end.
+
+Definition count_reports (t : list tev) : N :=
+  len (filter (fun e => match e with TReport _ => true | _ => false end) t).
+
+(* number of error-callback invocations caused by the served connections (no shared state:
+   each connection is its own [serve_conn]) *)
+Definition serve_reports (p : proto) (m : mode) (conns : list (list revt)) : N :=
+  fold_left N.add (map (fun q => count_reports (serve_conn p m q [] [] [])) conns) 0.
